@@ -258,6 +258,58 @@ fn weak_key_vectors(out: &mut Out, rng: &mut Rng) {
             }
         }
     }
+    // keys that do not decode to a curve point at all: nothing verifies under them, in particular
+    // not the "identity" signature (R = neutral element, S = 0)
+    let mut identity_sig = unhex(POINTS[0]).unwrap();
+    identity_sig.extend_from_slice(&[0u8; 32]);
+    let mut found = 0;
+    while found < 40 {
+        let k = rng.bytes(32);
+        let Ok(kb): Result<[u8; 32], _> = k.clone().try_into() else { continue };
+        if ed25519_dalek::VerifyingKey::from_bytes(&kb).is_ok() {
+            continue;
+        }
+        found += 1;
+        for r in [0usize, 1, 4] {
+            let mut sig = unhex(POINTS[r]).unwrap();
+            sig.extend_from_slice(&[0u8; 32]);
+            let msg = rng.rbytes(0, 20);
+            verify_case(out, &k, &[msg], &sig, "undecodable-key");
+            out.obs("undecodable_key_vectors", 1);
+        }
+    }
+    let _ = identity_sig;
+    // signature malleability: (R, S + L) must be rejected (RFC 8032 requires S < L). The oracle
+    // here is ring, which is not built from the repository's dependency features.
+    const L: [u8; 32] = [0xed, 0xd3, 0xf5, 0x5c, 0x1a, 0x63, 0x12, 0x58, 0xd6, 0x9c, 0xf7, 0xa2, 0xde, 0xf9, 0xde, 0x14, 0, 0, 0, 0, 0, 0, 0, 0, 0, 0, 0, 0, 0, 0, 0, 0x10];
+    for _ in 0..40 {
+        let key = RefKey::from_seed(&rng.bytes(32));
+        let pk = key.public();
+        let msg = rng.rbytes(0, 64);
+        let sig = key.sign(&msg);
+        let mut s2 = sig.clone();
+        let mut carry = 0u16;
+        for i in 0..32 {
+            let v = s2[32 + i] as u16 + L[i] as u16 + carry;
+            s2[32 + i] = v as u8;
+            carry = v >> 8;
+        }
+        if carry != 0 {
+            continue;
+        }
+        out.obs("malleability_vectors", 1);
+        let ring_says = ed_verify(&pk, &msg, &s2);
+        let (got, _) = impl_verify(&pk, &[msg.clone()], &s2);
+        if ring_says {
+            out.inconclusive("ring accepted S+L");
+        } else if got {
+            out.violation(
+                "C13 verifier accepts-invalid case=S-plus-L",
+                "MsgVerifier accepts (R, S + L) for a valid (R, S): RFC 8032 verification requires S < L (ring rejects it)",
+                json!({"kind":"verify","pk":hex(&pk),"chunks":[hex(&msg)],"sig":hex(&s2)}),
+            );
+        }
+    }
     out.case(0x5eed_0bad, true);
 }
 
@@ -301,6 +353,9 @@ pub fn run(ctx: &Ctx, out: &mut Out) {
     if ctx.shard < 4 {
         weak_key_vectors(out, &mut rng);
     }
+    if ctx.shard == 4 || ctx.nshards < 5 {
+        alloc_fault_probes(out, &mut rng);
+    }
     let nflip = ctx.share(400, 20_000);
     for i in 0..nflip {
         verifier_flips(out, &mut rng, i * ctx.nshards + ctx.shard);
@@ -314,6 +369,56 @@ pub fn run(ctx: &Ctx, out: &mut Out) {
     out.floor("verifications", 20_000);
     out.floor("oracle_accepts", 40);
     out.floor("weak_key_vectors", 400);
+    out.floor("undecodable_key_vectors", 100);
+    out.floor("malleability_vectors", 50);
     out.floor("own_signatures_verified", 2_000);
     out.floor("oracle_rejects", 10_000);
+}
+
+
+/// child process: sign a three-chunk message (600 + 600 + 3000 bytes, so the signer's buffer has
+/// to grow twice) while the k-th large allocation inside update() fails. Prints the signature in
+/// hex if it gets that far. An abort (the allocation-failure handler) is a legitimate outcome.
+pub fn allocprobe(seed_hex: &str, k: i64) {
+    let seed = unhex(seed_hex).unwrap();
+    let msg: Vec<u8> = (0..4200u32).map(|i| (i * 7 + 3) as u8).collect();
+    let mut signer = MsgSigner::from_seed(&seed);
+    crate::ALLOC_FAIL_IN.store(k, std::sync::atomic::Ordering::SeqCst);
+    signer.update(&msg[..600]);
+    signer.update(&msg[600..1200]);
+    signer.update(&msg[1200..]);
+    crate::ALLOC_FAIL_IN.store(-1, std::sync::atomic::Ordering::SeqCst);
+    let sig = signer.sign();
+    println!("{}", hex(&sig));
+}
+
+/// parent side of the allocation-fault probe
+fn alloc_fault_probes(out: &mut Out, rng: &mut Rng) {
+    let seed = rng.bytes(32);
+    let msg: Vec<u8> = (0..4200u32).map(|i| (i * 7 + 3) as u8).collect();
+    let want = hex(&RefKey::from_seed(&seed).sign(&msg));
+    for k in 0..4i64 {
+        let exe = std::env::current_exe().unwrap();
+        let Ok(o) = std::process::Command::new(exe).args(["allocprobe", &hex(&seed), &k.to_string()]).output() else {
+            out.inconclusive("allocprobe spawn failed");
+            continue;
+        };
+        out.obs("alloc_fault_probes", 1);
+        out.case(fnv64(&seed) ^ (0xa110c + k as u64), true);
+        let printed = String::from_utf8_lossy(&o.stdout).trim().to_string();
+        if o.status.success() && !printed.is_empty() {
+            if printed == want {
+                out.obs("alloc_fault_no_effect", 1);
+            } else {
+                out.violation(
+                    "C13 signature differs after-allocation-failure",
+                    &format!("with the {}-th large allocation inside update() failing, sign() returned a signature that is not the signature of the bytes fed (a chunk was dropped silently)", k + 1),
+                    json!({"kind":"allocprobe","seed":hex(&seed),"k":k}),
+                );
+            }
+        } else {
+            // the process died in the allocation-failure handler: nothing wrong was signed
+            out.obs("alloc_fault_aborted", 1);
+        }
+    }
 }
